@@ -33,7 +33,8 @@ Fixpoint monitor (lost : list (eid * option (rid * Z))) (prev : obs1) (os : list
             | None =>
                 match lookup_run lost e with
                 | Some (Some rt) => option_eqb (option_eqb rt_eqb) (lookup_run ce e) (Some (Some rt))
-                | _ => true
+                | Some None => option_eqb (option_eqb rt_eqb) (lookup_run ce e) (Some None)   (* no finished run comes back *)
+                | None => true
                 end
             end
         | Tags e (Some r) _ =>
